@@ -1022,20 +1022,20 @@ func genFileDef(emit func(string), tier string, rng *Rng) {
 	}
 	n := 12000
 	if tier == "thorough" {
-		n = 150000
+		n = 40000
 	}
 	for i := 0; i < n; i++ {
 		in := &infos[rng.Intn(len(infos))]
 		var k int
-		switch x := rng.Intn(10); {
-		case x < 3:
+		switch x := rng.Intn(50); {
+		case x < 15:
 			k = rng.Intn(6)
-		case x < 8:
+		case x < 40:
 			k = rng.Intn(40)
-		case x < 9 || tier != "thorough":
+		case x < 49 || tier != "thorough":
 			k = rng.Intn(200)
 		default:
-			k = rng.Intn(3000)
+			k = rng.Intn(2000)
 		}
 		ds := genMesgList(in, rng, k, 1)
 		count("ft:" + in.ft.name)
